@@ -108,6 +108,26 @@ class Module:
         self.name = mod["name"]
         self.env = {d["n"]: d["t"] for d in mod["defs"]}
 
+    def all_names(self):
+        if not hasattr(self, "_names"):
+            acc = set(STRING_NAMES.values()) | {"BOOLEAN", "INTEGER", "NULL", "REAL", "ENUMERATED", "BIT STRING", "OCTET STRING",
+                                                "OBJECT IDENTIFIER", "RELATIVE-OID", "SEQUENCE", "SET", "CHOICE",
+                                                "SEQUENCE OF", "SET OF", "NativeInteger", "NativeEnumerated", "NativeReal"}
+
+            def walk(t):
+                if isinstance(t, dict):
+                    for k, v in t.items():
+                        if k == "n" and isinstance(v, str):
+                            acc.add(v)
+                        else:
+                            walk(v)
+                elif isinstance(t, list):
+                    for x in t:
+                        walk(x)
+            walk(self.mod)
+            self._names = acc
+        return self._names
+
     # -- type helpers
     def deref(self, t):
         while t["k"] == "REF":
